@@ -3,13 +3,13 @@
 patch="$1"; shift
 cd /repo || exit 2
 if [ -n "$(git status --porcelain -- icontract)" ]; then echo "repo dirty"; exit 2; fi
-if ! git apply "$patch" 2>/dev/null; then
-  if ! git apply -3 "$patch" 2>/dev/null; then
-    if ! patch -p1 -s --no-backup-if-mismatch < "$patch"; then echo "PATCH DOES NOT APPLY"; git checkout -- . ; exit 3; fi
-  fi
-  git reset -q 2>/dev/null
+if ! git apply --check "$patch" 2>/dev/null; then
+  if ! patch -p1 -s --dry-run -F3 < "$patch" >/dev/null 2>&1; then echo "PATCH DOES NOT APPLY"; exit 3; fi
+  patch -p1 -s -F3 --no-backup-if-mismatch < "$patch"
+else
+  git apply "$patch"
 fi
 for id in "$@"; do
-  (cd /verif && timeout 1200 ./check "$id" --tier quick --no-evidence 2>&1 | grep -E "^(VIOLATION|KNOWN|HARNESS|C[0-9]+ tier|  bucket)" | cut -c1-220 | head -8; echo "  -> $id exit=${PIPESTATUS[0]}")
+  (cd /verif && timeout 1800 ./check "$id" --tier quick --no-evidence 2>&1 | grep -E "^(VIOLATION|KNOWN|HARNESS|C[0-9]+ tier|  bucket)" | cut -c1-220 | head -8; echo "  -> $id exit=${PIPESTATUS[0]}")
 done
-git checkout -- . ; git status --porcelain | head -3
+git checkout -- . ; git clean -fdq icontract; git status --porcelain | head -3
